@@ -128,6 +128,10 @@ func runC03(c *Ctx) {
 	// an attribute wrongly marked boolean loses its value: the table check of C17, restricted to the attribute traits
 	// an attribute value that holds code decodes to the same value only if the code was minified as the browser reads it
 	c.alsoUnder(map[string]string{"R11.9": "R03.16"}, nil, func() { c.r119() })
+	// a script whose string literal contains a live `</script` is cut short by the HTML parser
+	if jp := c.P.Pkg("js"); jp != nil {
+		c.r0920(jp, "R03.18")
+	}
 	c.alsoUnder(map[string]string{"R17.htmltraits": "R03.12"}, func(construct string) bool { return strings.HasPrefix(construct, "html.attrMap[") || strings.HasPrefix(construct, "floor/attrMap") }, func() { c.ruleHTMLTraits() })
 	c.r033(pk, fd)
 	c.r034(pk, fd)
